@@ -599,6 +599,27 @@ def validate (h : Hash) (cfg : Cfg) (dbOk : Bool) (ch : Ch) (w : World) : VOut :
     challenge: it turns valid iff the stored challenge is valid (C10 proves the general form). -/
 def authzAfter (o : Outcome) : Status := if o.status = .valid then .valid else .pending
 
+/-- the stored authorization record as far as status decisions read it -/
+structure AzRec where
+  status : Status
+  expired : Bool      -- now.After(ExpiresAt)
+  deriving Repr, DecidableEq
+
+/-- what `deviceAttest01Validate` leaves in the authorization record: it loads the record,
+    sets `Fingerprint` and writes it back — status and expiry are written back as loaded
+    (when nothing is written they are untouched anyway). -/
+def daAuthzRecord (before : AzRec) (_ : Outcome) : AzRec := before
+
+/-- `Authorization.UpdateStatus` — the only writer of an authorization's status: terminal states
+    stay, an expired pending authorization turns invalid, a pending one turns valid iff one of its
+    challenges is valid. -/
+def authzUpdateStatus (az : AzRec) (challengeValid : Bool) : Status :=
+  match az.status with
+  | .invalid => .invalid
+  | .valid => .valid
+  | .pending => if az.expired then .invalid else if challengeValid then .valid else .pending
+  | .other => .other
+
 /-! ### challenge types offered for an identifier (acme/api/order.go) -/
 
 inductive IdType where
